@@ -14,7 +14,7 @@
 
 namespace {
 
-enum { OP_SCHED_NOW = 1, OP_SCHED_FUT, OP_CANCEL, OP_SLEEP, OP_YIELD, OP_BEHAV, OP_MAIN_SLEEP, OP_EXTRA_REF };
+enum { OP_SCHED_NOW = 1, OP_SCHED_FUT, OP_CANCEL, OP_SLEEP, OP_YIELD, OP_BEHAV, OP_MAIN_SLEEP, OP_EXTRA_REF, OP_BULK_SCHED };
 enum { B_SCHED_NOW = 1, B_SCHED_FUT, B_SCHED_THEN_CANCEL, B_RESCHED_SELF, B_CANCEL_OTHER };
 static const uint64_t FAR = 100000000000000000ull; // 1e17 ns: beyond anything the virtual clock can reach in a run
 
@@ -207,6 +207,13 @@ void client_fn(void *arg) {
             case OP_CANCEL: do_cancel(c, c.tasks[(size_t)op.a % c.tasks.size()]); break;
             case OP_SLEEP: sim::sleep_ns((uint64_t)op.a); break;
             case OP_YIELD: sim::yield(); break;
+            case OP_BULK_SCHED: // many tasks handed over in a row (long hand-over queue, timed queue growth)
+                for (int64_t k = 0; k < op.a; k++) {
+                    TaskM &t = c.tasks[(size_t)(op.b + k) % c.tasks.size()];
+                    do_schedule(c, t, (k % 3) == 0, (int)((op.c + k) % 8));
+                }
+                sim::probe("bulk_schedule");
+                break;
             case OP_EXTRA_REF:
                 if (c.client_ref_mask & (1u << ca->idx)) { // only while holding a reference of its own
                     c.total_refs++;
@@ -359,6 +366,8 @@ void gen(uint64_t seed, int tier, sim::Plan &p) {
     if (r.chance(0.04)) p.cfg["create_fail"] = r.pick(std::vector<int64_t>{EAGAIN, ENOMEM, EPERM, EINVAL});
     if (p.get("faults") && r.chance(0.3)) p.cfg["p_pushfail"] = r.pick(std::vector<int64_t>{100000, 500000, 1000000});
     bool allow_max = r.chance(0.03);
+    bool scale = nclients > 0 && r.chance(tier ? 0.03 : 0.015);
+    if (scale) { nt = (int)r.range(100, 250); p.cfg["ntasks"] = nt; }
     // task behaviours
     int nb = r.chance(0.5) ? (int)r.range(0, nt) : 0;
     for (int i = 0; i < nb; i++) {
@@ -390,6 +399,10 @@ void gen(uint64_t seed, int tier, sim::Plan &p) {
             p.ops.push_back(op);
         }
     }
+    if (scale) {
+        sim::Op b; b.thr = (int)r.range(1, nclients); b.kind = OP_BULK_SCHED; b.a = r.range(60, nt); b.b = r.range(0, nt - 1); b.c = r.range(0, 7);
+        p.ops.insert(p.ops.begin() + (long)r.below(p.ops.size() + 1), b);
+    }
     p.cfg["soft_budget"] = 60000;
     p.cfg["hard_budget"] = 3000000;
 }
@@ -405,6 +418,7 @@ std::string op_text(const sim::Op &op) {
         case OP_CANCEL: snprintf(b, sizeof b, "%s%d: cancel(task %lld) [only if far-future and its schedule call has returned]", who, op.thr, (long long)op.a); break;
         case OP_SLEEP: case OP_MAIN_SLEEP: snprintf(b, sizeof b, "%s%d: sleep(%lld ns virtual)", who, op.thr, (long long)op.a); break;
         case OP_YIELD: snprintf(b, sizeof b, "%s%d: yield", who, op.thr); break;
+        case OP_BULK_SCHED: snprintf(b, sizeof b, "%s%d: schedule %lld tasks in a row (from task %lld, mixed now/future)", who, op.thr, (long long)op.a, (long long)op.b); break;
         case OP_EXTRA_REF: snprintf(b, sizeof b, "%s%d: acquire an extra reference (released before its own)", who, op.thr); break;
         case OP_BEHAV: snprintf(b, sizeof b, "behaviour: task %lld when RUN does %s(task %lld, %s)", (long long)op.a, ba[op.c % 6], (long long)op.d, dc[op.b % 10]); break;
         default: snprintf(b, sizeof b, "?");
